@@ -95,6 +95,38 @@ func clearTerminate(real *app.Session, m *model.Session) {
 	}
 }
 
+// operatorFlag changes TERMINATE from outside the VM, on the live state or on the stored one.
+func operatorFlag(real *app.Session, set bool) bool {
+	apply := func(st *state.State) {
+		if set {
+			st.SetFlag(state.FLAG_TERMINATE)
+		} else {
+			st.ResetFlag(state.FLAG_TERMINATE)
+		}
+	}
+	switch real.Mode.Kind {
+	case "long", "long+persist":
+		if real.St == nil {
+			return false
+		}
+		apply(real.St)
+		return true
+	case "persist":
+		ctx := context.Background()
+		store, err := real.Storage.Open(ctx)
+		if err != nil {
+			return false
+		}
+		pe := persist.NewPersister(store).WithContent(state.NewState(real.Cfg.FlagCount), cache.NewCache())
+		if err := pe.Load(real.Cfg.SessionId); err != nil {
+			return false
+		}
+		apply(pe.GetState())
+		return pe.Save(real.Cfg.SessionId) == nil
+	}
+	return false
+}
+
 func genC06(t *rapid.T) ModelCase {
 	a := GenApp(t, c06Opts)
 	if a.Cfg.FlagCount == 0 {
@@ -115,6 +147,9 @@ func genC06(t *rapid.T) ModelCase {
 	}
 	if chancePct(t, 60, "operator") && len(c.Inputs) > 2 {
 		c.ClearTerminateAt = []int{rapid.IntRange(1, len(c.Inputs)-1).Draw(t, "clearat")}
+	}
+	if chancePct(t, 35, "block") && len(c.Inputs) > 2 {
+		c.BlockAt = []int{1 + uniformN(t, len(c.Inputs)-1, "blockat")}
 	}
 	return c
 }
@@ -175,6 +210,9 @@ func checkC06(c ModelCase) (o Outcome) {
 	if len(c.ClearTerminateAt) > 0 {
 		o.class("operator-step")
 	}
+	if len(c.BlockAt) > 0 {
+		o.class("out-of-band-block")
+	}
 	if f.bail != "" {
 		o.class("stopped:" + f.bail)
 	}
@@ -197,6 +235,12 @@ func blockedRequestsInert(c ModelCase) *Violation {
 			continue
 		}
 		blocked := prev != nil && terminateOf(prev.Flags)
+		for _, at := range c.BlockAt {
+			// out-of-band block of a session that is waiting for input
+			if at == i && prev != nil && !blocked && operatorFlag(real, true) {
+				blocked = true
+			}
+		}
 		st := real.Request([]byte(in))
 		if st.Panic != "" || st.Exceeded {
 			return nil
@@ -219,6 +263,24 @@ func blockedRequestsInert(c ModelCase) *Violation {
 				}
 				if !framesEqual(st.After.Frames, prev.Frames) {
 					return viol("blocked-request-cache", "request %d (%q) started with TERMINATE set but the cache changed", i, in)
+				}
+			}
+		}
+		// external code that returned normally with TERMINATE in its FlagSet has set it,
+		// whatever became of the content it returned alongside
+		if !blocked && st.After != nil && !terminateOf(st.After.Flags) {
+			for _, cl := range st.Calls {
+				if cl.Kind != "call" {
+					continue
+				}
+				r, err := c.App.ScriptedResult(cl.Sym, cl.N, cl.Lang, []byte(cl.Input))
+				if err != nil {
+					continue
+				}
+				for _, f := range r.FlagSet {
+					if f == state.FLAG_TERMINATE {
+						return viol("terminate-from-external-code-lost", "request %d (%q): call %d of %s returned TERMINATE in its FlagSet but the flag is not set after the request (exec error %q): %s", i, in, cl.N, cl.Sym, st.ExecErr, app.CallsString(st.Calls))
+					}
 				}
 			}
 		}
